@@ -214,16 +214,23 @@ impl<D: DataMut> GGLWECompressed<D> {
 
 impl<D: DataMut> ReaderFrom for GGLWECompressed<D> {
     fn read_from<R: std::io::Read>(&mut self, reader: &mut R) -> std::io::Result<()> {
-        self.k = TorusPrecision(reader.read_u32::<LittleEndian>()?);
-        self.base2k = Base2K(reader.read_u32::<LittleEndian>()?);
-        self.dsize = Dsize(reader.read_u32::<LittleEndian>()?);
-        self.rank_out = Rank(reader.read_u32::<LittleEndian>()?);
+        // Commit the metadata only once the whole object has been read.
+        let k = TorusPrecision(reader.read_u32::<LittleEndian>()?);
+        let base2k = Base2K(reader.read_u32::<LittleEndian>()?);
+        let dsize = Dsize(reader.read_u32::<LittleEndian>()?);
+        let rank_out = Rank(reader.read_u32::<LittleEndian>()?);
         let seed_len: u32 = reader.read_u32::<LittleEndian>()?;
-        self.seed = vec![[0u8; 32]; seed_len as usize];
-        for s in &mut self.seed {
+        let mut seed = vec![[0u8; 32]; seed_len as usize];
+        for s in &mut seed {
             reader.read_exact(s)?;
         }
-        self.data.read_from(reader)
+        self.data.read_from(reader)?;
+        self.k = k;
+        self.base2k = base2k;
+        self.dsize = dsize;
+        self.rank_out = rank_out;
+        self.seed = seed;
+        Ok(())
     }
 }
 
